@@ -30,6 +30,8 @@ MAX_LEN = 300
 
 
 def gen_plan(r, index, tier):
+    if r.random() < 0.008:
+        return _gen_big(r)
     w, cfg = common.gen_stream_workload(r, max_values=1, small=r.random() < 0.6)
     conf = {'stream_kind': r.choice(['file', 'file', 'pipe']),
             'threshold': r.choice([None, None, 8192, 16]),
@@ -39,13 +41,34 @@ def gen_plan(r, index, tier):
     return {'check': ID, 'workload': w, 'config': conf}
 
 
+def _gen_big(r):
+    """An element whose length needs 3 length octets (> 65535): too long to cut everywhere,
+    so the cut points are the structural ones near the headers and the end plus a seeded sample."""
+    n = r.choice([65536, 66000, 70001])
+    inner = {'k': r.choice(['OCTETSTRING', 'OCTETSTRING', 'UTF8']), 'tags': []}
+    val = ('ab' * n) if inner['k'] == 'OCTETSTRING' else ('x' * n)
+    if r.random() < 0.5:
+        desc = {'k': 'SEQ', 'tags': [], 'fields': [{'n': 'a', 'd': {'k': 'INTEGER', 'tags': []}, 'opt': 'R'},
+                                                   {'n': 'b', 'd': inner, 'opt': 'R'}]}
+        value = {'a': 5, 'b': val}
+    else:
+        desc, value = inner, val
+    codec = r.choice(['ber', 'der', 'ber-indef'])
+    w = {'desc': desc, 'values': [value], 'codec': codec, 'decoder': common.decoder_for(codec),
+         'use_spec': r.random() < 0.8, 'open_types': False}
+    ks = sorted(set(list(range(0, 12)) + [n + 5, n + 9, n + 10, n + 11] + [r.randrange(14, n) for _ in range(3)]))
+    conf = {'stream_kind': r.choice(['file', 'pipe']), 'threshold': r.choice([None, 8192]),
+            'chunks': [r.choice([4096, 30000, 70000])], 'open_polls': 1, 'poll_each_chunk': r.random() < 0.5}
+    return {'check': ID, 'workload': w, 'config': conf, 'only_k': ks, 'big': True}
+
+
 def execute(plan):
     conf = plan['config']
     try:
         wl = W.Workload(plan['workload'])
         wl.require_well_framed()
         e = wl.stream
-        if len(e) > MAX_LEN:
+        if len(e) > MAX_LEN and not plan.get('big'):
             raise W.Skip('too-long')
         try:
             v, rest = wl.dec_mod.decode(e, asn1Spec=wl.spec, **wl.dec_kw)
@@ -91,6 +114,8 @@ def execute(plan):
     res['sites'] = sorted(sites)
     res['evals'] = evals
     res['weight'] = max(0, len(list(ks)) - 1)
+    if plan.get('big'):
+        res['counters']['probe.three_octet_length'] = 1
     return res
 
 
